@@ -79,4 +79,4 @@ Fixpoint all_positive (l : list call) : Prop :=
 
 Definition plain (thr gd ms : N) (sh : shape) : cfg :=
   {| trig_of := fun _ => notrig; fmode_in := false; has_caller := false; gdepth := gd; threshold := thr;
-     max_stack := ms; sym_size := fun _ => 0; shp := sh |}.
+     max_stack := ms; sym_size := fun _ => 0; shp := sh; lmode_in := false |}.
